@@ -113,7 +113,7 @@ def replay(ctx, obj):
 
 
 def run(ctx):
-    explore(ctx, ctx.subrng("getv"), ctx.budget(700, 5000))
+    explore(ctx, ctx.subrng("getv"), ctx.budget(1200, 8000))
     if not ctx.violations:
         try:
             from .. import dense
